@@ -137,6 +137,36 @@ type c14env struct {
 	pipe    string
 }
 
+// handsOutCredential: a rejected request must not be answered with something that works as a credential - every cookie
+// the response sets (and every bearer-looking header value) is tried on a read-only route; "" if none of them is accepted
+func (env *c14env) handsOutCredential(rec *httptest.ResponseRecorder) string {
+	try := func(tok, via string) bool {
+		req := env.request("GET", "/pipelines/")
+		if via == "cookie" {
+			req.AddCookie(&http.Cookie{Name: "jwt", Value: tok})
+		} else {
+			req.Header.Set("Authorization", "Bearer "+tok)
+		}
+		r2 := httptest.NewRecorder()
+		env.h.ServeHTTP(r2, req)
+		return r2.Code != 401
+	}
+	for _, ck := range rec.Result().Cookies() {
+		if ck.Value == "" {
+			continue
+		}
+		if try(ck.Value, "cookie") || try(ck.Value, "header") {
+			return fmt.Sprintf("the response sets cookie %q whose value is accepted as a token afterwards", ck.Name)
+		}
+	}
+	for _, h := range []string{"Authorization", "X-Token", "Token", "Www-Authenticate"} {
+		if v := strings.TrimPrefix(rec.Header().Get(h), "Bearer "); v != "" && strings.Count(v, ".") == 2 && try(v, "header") {
+			return fmt.Sprintf("response header %s carries a value that is accepted as a token afterwards", h)
+		}
+	}
+	return ""
+}
+
 func c14setup(seed int64, secret string, profiling bool) (*c14env, error) {
 	r := rand.New(rand.NewSource(seed))
 	mark := fmt.Sprintf("MARK%06d", r.Intn(1e6))
@@ -340,6 +370,9 @@ func runC14(tier string, seed int64) *Outcome {
 								if rec.Code != 401 {
 									find("C14:request-without-valid-token-not-401", "%s %s with credential %q via %s answered %d (profiling=%v)", m, p, cl.name, transport, rec.Code, profiling)
 								}
+								if why := env.handsOutCredential(rec); why != "" {
+									find("C14:rejected-request-hands-out-a-credential", "%s %s with credential %q via %s answered %d and %s", m, p, cl.name, transport, rec.Code, why)
+								}
 								for _, mk := range env.markers {
 									if mk != "" && strings.Contains(body, mk) {
 										find("C14:rejected-request-reveals-data", "%s %s with credential %q via %s: the response body contains %q", m, p, cl.name, transport, mk)
@@ -462,6 +495,9 @@ func runC14(tier string, seed int64) *Outcome {
 								res.Situations = append(res.Situations, fmt.Sprintf("after-valid(%s) %s %s %s/%s profiling=%v", primer, rt[0], rt[1], strings.Split(cl.name, "-")[0], transport, profiling))
 								if rec.Code != 401 {
 									find("C14:request-without-valid-token-not-401", "%s %s with credential %q via %s answered %d directly after the same request had been answered for a valid token carried in the %s", rt[0], rt[1], cl.name, transport, rec.Code, primer)
+								}
+								if why := env.handsOutCredential(rec); why != "" {
+									find("C14:rejected-request-hands-out-a-credential", "%s %s with credential %q via %s answered %d and %s", rt[0], rt[1], cl.name, transport, rec.Code, why)
 								}
 								body := rec.Body.String()
 								for _, mk := range env.markers {
